@@ -40,7 +40,7 @@ PROPS = {
         theorems=['C10_hub', 'C10_dispatcher', 'C10_reward', 'C10_registry', 'C10_bsei_token', 'C10_stsei_token',
                   'C10_hub_set_owner', 'C10_hub_accept', 'C10_token_addr_immutable', 'C10_hub_static',
                   'C10_rejected_changes_nothing', 'C10_root_rejected'],
-        kernels=[], scenarios=['basic.ops'], grid=True, profiles=['config'],
+        kernels=[], scenarios=['basic.ops', 'paramgrid.ops'], grid=True, profiles=['config'],
         keys=['hub.cfg', 'hub.newowner', 'hub.params', 'rw.cfg', 'rw.newowner', 'dp.cfg', 'dp.newowner', 'rg.cfg',
               'rg.newowner', 'rg.vals', 'tok.bsei.info', 'tok.stsei.info'],
         ops=[r'^(hub|reward|disp|reg) ', r'^bond rw', r'^cw \S+ \S+ (mint|burn|updminter)'],
@@ -51,7 +51,7 @@ PROPS = {
         theorems=['C11_paused_blocks', 'C11_paused_tx_rejected', 'C11_params_owner_only', 'C11_no_unpause_with_legacy',
                   'C11_migrate_unpauses_only_when_drained', 'C11_queries_ignore_pause', 'C11_pause_cycle_identity',
                   'C11_migrate_noop_without_legacy'],
-        kernels=[], scenarios=['basic.ops'], grid=True, profiles=['pause'],
+        kernels=[], scenarios=['basic.ops', 'paramgrid.ops'], grid=True, profiles=['pause'],
         keys=['hub.'],
         ops=[r'^hub ', r'^bond ', r'^legacy_wait'],
         assumes=['legacy wait-list entries only for user0..user7 and batch ids 1..9 (storage order = model order, PROTOCOL.md 3.1)'],
@@ -61,7 +61,7 @@ PROPS = {
         theorems=['C20_params_in_range', 'C20_denoms_fixed', 'C20_hub_params_omitted', 'C20_hub_config_omitted',
                   'C20_disp_config_omitted', 'C20_reward_config_omitted', 'C20_reg_config_omitted',
                   'C20_rejected_changes_nothing'],
-        kernels=[], scenarios=['basic.ops'], profiles=['config'],
+        kernels=[], scenarios=['basic.ops', 'paramgrid.ops'], profiles=['config'],
         keys=['hub.params', 'hub.cfg', 'dp.cfg', 'rw.cfg', 'rg.cfg', 'hub.newowner', 'dp.newowner', 'rw.newowner', 'rg.newowner'],
         ops=[r'^inst_', r'^hub \S+ (params|config)', r'^disp \S+ (config|swapdenom|swapcontract|oracle)',
              r'^reward \S+ (config|swapdenom)', r'^reg \S+ config'],
@@ -71,7 +71,7 @@ PROPS = {
         props_file='Props/C18.v',
         theorems=['C18_supply_invariant_reachable', 'C18_bsei_preserves', 'C18_stsei_preserves', 'C18_instantiate',
                   'C18_move_conserves', 'C18_mint_only_minter', 'C18_burn_only_hub', 'C18_allowance_bound'],
-        kernels=[], scenarios=['basic.ops'], profiles=['token'],
+        kernels=[], scenarios=['basic.ops', 'token.ops'], profiles=['token'],
         keys=['tok.', 'm wasm bsei', 'm wasm stsei'],
         ops=[r'^cw ', r'^inst_bsei', r'^inst_stsei'],
         assumes=['all token holders are among the 21 named addresses (only those appear in operations)'],
@@ -108,7 +108,7 @@ PENDING = {
     'C15': dict(props_file='Props/C15.v', theorems=[], kernels=['drewards'], scenarios=['basic.ops', 'findings.ops', 'branches.ops', 'overflow.ops'],
                 profiles=['rewards', 'token'], keys=['rw.', 'bank reward', 'm wasm bsei reward', 'm wasm disp reward', 'tok.bsei'],
                 ops=[r'^reward ', r'^cw bsei', r'^hub \S+ updateglobal', r'^bond b'], assumes=E_ENV),
-    'C16': dict(props_file='Props/C16.v', theorems=[], kernels=[], scenarios=['basic.ops', 'findings.ops', 'branches.ops', 'overflow.ops'],
+    'C16': dict(props_file='Props/C16.v', theorems=[], kernels=[], scenarios=['basic.ops', 'findings.ops', 'branches.ops', 'overflow.ops', 'token.ops'],
                 profiles=['token', 'general'], keys=['rw.holder', 'rw.state', 'tok.bsei', 'm wasm bsei', 'm wasm hub bsei'],
                 ops=[r'^cw bsei', r'^bond b', r'^reward \S+ (inc|dec)'], assumes=E_ENV + ['bSei instantiated without initial balances']),
     'C19': dict(props_file='Props/C19.v', theorems=[], kernels=['swapinfo'], scenarios=['basic.ops', 'findings.ops', 'branches.ops', 'overflow.ops'],
@@ -125,6 +125,8 @@ if _os.path.exists(_tj):
     for _pid, _thms in _json.load(open(_tj)).items():
         if _pid in PENDING:
             PROPS[_pid] = dict(PENDING.pop(_pid), theorems=_thms)
+        elif _pid in PROPS:
+            PROPS[_pid]['theorems'] = sorted(set(PROPS[_pid]['theorems']) | set(_thms))
 
 _ej = _os.path.join(_os.path.dirname(_os.path.abspath(__file__)), 'extra_props.json')
 if _os.path.exists(_ej):
